@@ -145,6 +145,30 @@ func (ix *IPDB) FindIP(ctx context.Context, isFree func(context.Context, net.IP)
 	ix.Lock()
 	defer ix.Unlock()
 
+	n, err := ix.findIP(ctx, isFree, ip, duid)
+	if err != nil {
+		return nil, err
+	}
+	return n.ToV4(), nil
+}
+
+// OfferIP works like FindIP but also reserves the IP for the duid (for at least ttl) before any other
+// caller gets a chance to pick the same IP.
+func (ix *IPDB) OfferIP(ctx context.Context, isFree func(context.Context, net.IP) bool, ip net.IP, duid d.Duid, ttl time.Duration) (net.IP, error) {
+	ix.Lock()
+	defer ix.Unlock()
+
+	n, err := ix.findIP(ctx, isFree, ip, duid)
+	if err != nil {
+		return nil, err
+	}
+	if err := ix.holdClient(time.Now(), n, duid, ttl); err != nil {
+		return nil, err
+	}
+	return n.ToV4(), nil
+}
+
+func (ix *IPDB) findIP(ctx context.Context, isFree func(context.Context, net.IP) bool, ip net.IP, duid d.Duid) (uip.Uip, error) {
 	n, err := ix.toUip(ip)
 	if err != nil {
 		// Suggested IP not in range, just ignore it.
@@ -154,11 +178,11 @@ func (ix *IPDB) FindIP(ctx context.Context, isFree func(context.Context, net.IP)
 	oip, oduid := ix.clients.Lookup(time.Now(), n, duid)
 	if oduid != nil {
 		// This duid already has a lease.
-		return oduid.Uip().ToV4(), nil
+		return oduid.Uip(), nil
 	}
 
 	if ix.dynTo == 0 && ix.dynFrom == 0 {
-		return nil, fmt.Errorf("dynamic searches are disabled")
+		return 0, fmt.Errorf("dynamic searches are disabled")
 	}
 
 	p := rand.Perm(1 + int(ix.dynTo-ix.dynFrom))
@@ -174,10 +198,10 @@ func (ix *IPDB) FindIP(ctx context.Context, isFree func(context.Context, net.IP)
 		picked := ix.dynFrom + uip.Uip(v)
 		e, _ := ix.clients.Lookup(time.Now(), picked, nil)
 		if e == nil && picked.Valid() && isFree(ctx, picked.ToV4()) {
-			return picked.ToV4(), nil
+			return picked, nil
 		}
 	}
-	return nil, fmt.Errorf("no free ip found")
+	return 0, fmt.Errorf("no free ip found")
 }
 
 // InManagedRange returns 'true' if given ip is in the network range we manage.
